@@ -341,8 +341,15 @@ impl Region {
         trace!("{}: '{}' remove acquiring regions_mut", db, id);
         let mut regions = db.regions_mut();
         trace!("{}: '{}' remove got locks", db, id);
+        // Refuse before anything is changed: once the layout has dropped the region its
+        // extent is a pending hole, which must not happen for a region that stays alive.
+        let in_layout = layout
+            .start_to_region()
+            .get(&self.meta().start())
+            .is_some_and(|r| r.ptr_eq(&self));
+        regions.ensure_removable(&self, usize::from(in_layout))?;
         layout.remove_region(&self)?;
-        regions.remove(&self)?;
+        regions.remove(&self);
         Ok(())
     }
 
